@@ -15,8 +15,8 @@ ID = "C07"
 LEVEL = "exploration"
 N_QUICK, N_THOROUGH = 3200, 80000
 T_QUICK, T_THOROUGH = 75, 1500
-FLOORS = {"types_compiled": 300, "setter_calls_inproc": 3000, "full_rereads": 3000, "byte_diffs_checked": 3000,
-          "standalone_runs": 100, "standalone_setter_diffs": 1000, "standalone_accessor_lines": 5000,
+FLOORS = {"types_compiled": 300, "setter_calls_inproc": 1500, "full_rereads": 1500, "byte_diffs_checked": 1500,
+          "standalone_runs": 100, "standalone_setter_diffs": 500, "standalone_accessor_lines": 3000,
           "flush_at_image_end": 50, "extreme_values": 500, "growths_between_setter_calls": 100}
 RULE = ("random type AST with scalar leaves (depth<=3) x value; (a) in-process: each sampled generated setter is called "
         "through ContextCpu/cffi with type extremes and random values, then the WHOLE object is re-read against the "
